@@ -4,6 +4,7 @@
 package hclwrite
 
 import (
+	"bytes"
 	"reflect"
 
 	"github.com/hashicorp/hcl/v2"
@@ -25,9 +26,31 @@ func newBody() *Body {
 }
 
 func (b *Body) appendItem(c nodeContent) *node {
+	b.ensureTrailingNewline()
 	nn := b.children.Append(c)
 	b.items.Add(nn)
 	return nn
+}
+
+// ensureTrailingNewline makes sure that an item appended to the body will
+// start on a line of its own. A body loaded from a file whose last line has no
+// newline (or ends in a comment without one) would otherwise run straight
+// into, or comment out, whatever is appended next.
+func (b *Body) ensureTrailingNewline() {
+	for n := b.children.last; n != nil; n = n.before {
+		toks := n.BuildTokens(nil)
+		if len(toks) == 0 {
+			continue
+		}
+		last := toks[len(toks)-1]
+		switch {
+		case last.Type == hclsyntax.TokenNewline:
+		case last.Type == hclsyntax.TokenComment && bytes.HasSuffix(last.Bytes, []byte{'\n'}):
+		default:
+			b.AppendNewline()
+		}
+		return
+	}
 }
 
 func (b *Body) appendItemNode(nn *node) *node {
